@@ -164,7 +164,9 @@ def selftest(by, verdicts, work):
     turn false; with one logged manager state flipped conformance must reject it; with the manifest of the last Deploy
     call changed clause (d) must turn false."""
     base_c = base_d = None
-    for i, recs in sorted(by.items(), key=lambda kv: len(kv[1])):
+    for i, recs in sorted(by.items(), key=lambda kv: (len(kv[1]), kv[0])):
+        if i >= 1000000:
+            continue   # burst variants are validated against the interleaved model; the self-test uses Atomic
         v = verdicts.get(i)
         if not v or v["fail"] or v["dpos"] or v["notq"] or not v["ended"]:
             continue
